@@ -303,6 +303,19 @@ func (*ExprBridge).matchesLikePattern
   loop 1 invariant len(text) == 0 ==> pi == 0
   loop 2 invariant 0 <= pi && (len(text) == 0 ==> forall(i, 0, pi, pattern[i] == 37))
 
+// ---- the per-row environment handed to expr-lang: every registered function is wrapped so that it runs on the row this
+// environment was built for, and like_match takes the text first and the pattern second
+func (*ExprBridge).CreateEnhancedExprEnvironment$1$1
+  props C20 C06 C13
+  modifies *
+  before Execute a-wrapped-function-runs-on-the-row-its-environment-was-built-for-with-the-arguments-given: $arg1.Data == data && seqeq($arg2, params)
+
+func (*ExprBridge).CreateEnhancedExprEnvironment$2
+  props C13 C06 C20
+  before matchesLikePattern like-match-takes-the-text-first-and-the-pattern-second: $arg1 == $p0 && $arg2 == $p1
+  observe verdict := matchesLikePattern
+  atreturn the-matchers-verdict-is-the-answer: result == $verdict
+
 // ---- what the rewriting steps look for
 func (*ExprBridge).ContainsLikeOperator
   props C13 C06 C20
